@@ -41,6 +41,7 @@ class Recorder:
         self.njob = None
         self.hash_ids = {}
         self.counter_mismatch = None   # (event index, attr, value, own count)
+        self.windows = []              # (label, job_i, state when the command is launched, state when it returned)
 
     def builder(self):
         from . import e3
@@ -76,7 +77,21 @@ def instrumented():
     B, S, D, X = _b.Builder, _s.Scheduler, _d.DirectorHandler, _x.Executor
     orig = {"start_task": B.start_task, "start_hash_task": B.start_hash_task, "_task_done": B._task_done,
             "promoted": B.run_promoted_hash_jobs, "pop": S.pop_next_job, "amend": D.amend_step,
-            "run_hash_job": X.run_hash_job}
+            "run_hash_job": X.run_hash_job, "run_command": X._run_command}
+
+    async def state_of(executor, step):
+        from . import e3
+        async with e3._harness_txn(e3._CTX, executor.db):
+            return step.get_state().name
+
+    @functools.wraps(orig["run_command"])
+    async def _run_command(self, run):
+        st0 = await state_of(self, run.step)
+        try:
+            return await orig["run_command"](self, run)
+        finally:
+            st1 = await state_of(self, run.step)
+            r.windows.append((run.step.label, run.job_i, st0, st1))
 
     @functools.wraps(orig["start_task"])
     def start_task(self, job):
@@ -149,12 +164,14 @@ def instrumented():
     B.start_task, B.start_hash_task, B._task_done = start_task, start_hash_task, _task_done
     B.run_promoted_hash_jobs, S.pop_next_job, D.amend_step, X.run_hash_job = (
         run_promoted_hash_jobs, pop_next_job, amend_step, run_hash_job)
+    X._run_command = _run_command
     try:
         yield r
     finally:
         B.start_task, B.start_hash_task, B._task_done = orig["start_task"], orig["start_hash_task"], orig["_task_done"]
         B.run_promoted_hash_jobs, S.pop_next_job, D.amend_step, X.run_hash_job = (
             orig["promoted"], orig["pop"], orig["amend"], orig["run_hash_job"])
+        X._run_command = orig["run_command"]
 
 
 def loop_items(events):
@@ -358,6 +375,20 @@ def scenario_hold_amend():
             {}, {"P": "./plan.py", "W": "./plan.py", "C": "P", "D": "P"})
 
 
+def scenario_over_release():
+    """release below zero: P releases once more than it held (the refusal is caught by the script), then
+    opens a hold block and declares C inside it. If the refused release had moved the counter to -1, the
+    following hold would bring it to 0 and C would start before the release."""
+    from . import e3
+    plan = [{"op": "step", "label": "P"}, {"op": "step", "label": "W"}]
+    commands = {"P": [{"op": "hold"}, {"op": "release"}, {"op": "release", "catch": True},
+                      {"op": "hold"}, {"op": "step", "label": "C"}, {"op": "gate", "name": "P-mid"},
+                      {"op": "release"}],
+                "C": [], "W": []}
+    return (e3.Project(sources={}, program={"scripts": {"plan.py": plan}, "commands": commands}),
+            {}, {"P": "./plan.py", "W": "./plan.py", "C": "P"})
+
+
 def run_build(proj, njob, avail, schedule, timeout=90):
     """One real build with the recording wrappers; returns (BuildResult, Recorder)."""
     from . import e3
@@ -410,7 +441,6 @@ def scenario_checking(kind):
     Returns (Project, avail, declared_in, history)."""
     from . import e3
     sources = {"in1.txt": "1\n", "in2.txt": "2\n"}
-
     def plan(extra):
         acts = [{"op": "static", "paths": ["in1.txt", "in2.txt"]}]
         if kind == "hold":
